@@ -95,7 +95,11 @@ int main(void)
 {
     world_init();
     ABTI_mutex_init(&M); ABTI_cond_init(&CV);
+#ifdef A1
+    a1 = A1;                        /* one obligation per kind of the waiter ahead (none / blocked ULT / external): keeps each solver run small */
+#else
     a1 = nondet_int(); VR_ASSUME(a1 >= 0 && a1 <= 2);
+#endif
     k2 = nondet_int(); VR_ASSUME(k2 >= 0 && k2 <= 3);
 #if FOCUS_EXT
     VR_ASSUME(a1 != 1);            /* ES1 is the signaller's identity in this variant */
@@ -121,9 +125,15 @@ int main(void)
     if (r == ABT_ERR_COND_TIMEDOUT) {
         VR_ASSERT(vr_now >= deadline, "TIMEDOUT only after a clock reading at or past the absolute deadline");
         VR_ASSERT(!f_sig, "TIMEDOUT only if the caller was not signalled (a signalled waiter must report SUCCESS, it consumed the signal)");
+#if !defined(A1) || A1 != 0
         if (a1 && k2 == 3 && n2_state == 1) VR_WITNESS("timed out in the MIDDLE of the queue");
+#endif
+#if !defined(A1) || A1 == 0
         if (!a1 && n2_state == 1) VR_WITNESS("timed out at the HEAD with a waiter behind");
+#endif
+#if !defined(A1) || A1 != 0
         if (a1 && n2_state != 1 && !n1_woken) VR_WITNESS("timed out at the TAIL");
+#endif
     } else {
         VR_ASSERT(f_sig, "SUCCESS only if the caller was signalled (no spurious wakeup)");
         VR_WITNESS("timed wait signalled");
@@ -134,8 +144,12 @@ int main(void)
     f_done = 1;
     VR_ASSERT(r == ABT_SUCCESS, "wait succeeds");
     VR_ASSERT(f_sig, "no spurious wakeup: wait returns only after a signal/broadcast woke this waiter");
+#if !defined(A1) || A1 != 0
     if (a1 && total_wakeops >= 2) VR_WITNESS("woken by the second signal, behind another waiter");
+#endif
+#if !defined(A1) || A1 == 0
     if (!a1) VR_WITNESS("woken as the head");
+#endif
 #endif
     VR_ASSERT(holders == 0, "nobody else holds the mutex when the wait returns");
     holders++;
@@ -152,7 +166,11 @@ int main(void)
         if (exp2) { VR_ASSERT(ids[e] == 2, "N2 still queued"); if (k2 == 3 && e > 0) VR_ASSERT(D2.p_prev == n1_ptr(), "timed waiter's p_prev names its predecessor (needed for its own timeout)"); }
         VR_ASSERT(n == 0 ? CV.waitlist.p_tail == NULL : CV.waitlist.p_tail == (exp2 ? n2_ptr() : n1_ptr()), "tail pointer correct");
         /* a later signal wakes the head of what remains: the finished waiter consumes nothing */
-        if (n > 0 && sigs_left > 0) { vr_in_init = 1; /* no further environment steps: this is the epilogue check */ as_agent(AGENT_T); int before = f_sig; sigs_left--; f_sig = 0; do_signal(0); VR_ASSERT(!f_sig, "a later signal goes to the next waiter, not to the one that already returned"); VR_ASSERT(!bad_signal, "the later signal wakes exactly the head of the remaining queue"); f_sig = before; as_agent(AGENT_A); VR_WITNESS("later signal delivered to a remaining waiter"); }
+        if (n > 0 && sigs_left > 0) { vr_in_init = 1; /* no further environment steps: this is the epilogue check */ as_agent(AGENT_T); int before = f_sig; sigs_left--; f_sig = 0; do_signal(0); VR_ASSERT(!f_sig, "a later signal goes to the next waiter, not to the one that already returned"); VR_ASSERT(!bad_signal, "the later signal wakes exactly the head of the remaining queue"); f_sig = before; as_agent(AGENT_A); 
+#if !defined(A1) || A1 == 0
+            VR_WITNESS("later signal delivered to a remaining waiter");
+#endif
+        }
     }
 #if !FOCUS_EXT
     VR_ASSERT(PL0.num_blocked.val == 0, "blocked counter of the waiter's pool balanced");
